@@ -221,6 +221,13 @@ fn build_pair(r: &mut Rng, out: &mut String, force_relation: bool) -> &'static s
                 let kind = chunk_kind(r);
                 chunk(r, out, "b0", k, kind);
             }
+            // ... sometimes emptied again: the empty set is disjoint from itself, a subset of itself, ...
+            match r.below(8) {
+                0 => writeln!(out, "clear b0").unwrap(),
+                1 => writeln!(out, "remove_range b0 un un").unwrap(),
+                2 => writeln!(out, "sub ar b0 b0 b0").unwrap(),
+                _ => {}
+            }
             if r.chance(1, 3) {
                 "b0"
             } else {
